@@ -31,6 +31,7 @@ fn main() {
     ba_harness::world::quiet_panics();
     let report = match prop.as_str() {
         "c16" => props::c16::run(&cfg),
+        "c06" | "c07" | "c08" => props::market::run(&cfg, prop.as_str()),
         _ => { eprintln!("unknown property {}", prop); std::process::exit(2); }
     };
     if let Some(dir) = std::path::Path::new(&cfg.out).parent() {
